@@ -152,14 +152,14 @@ def decodeQs (F : Facts03) (cfg : Cfg) (fields : List Fld) (qs : Text) : Outcome
 /-- a return value as the user function hands it over -/
 inductive RetVal where
   | none
-  | leaf (v : Leaf)
+  | leaf (p : PK) (v : Leaf)
   | bytes (chunks : List (List Nat))     -- ByteArray: a sequence of byte strings
   deriving Repr
 
 /-- `to_bytes_iterable(out_class, out_object)` joined -/
-def retBody : RetVal → List Nat
+def retBody (F : Facts03) : RetVal → List Nat
   | .none => []
-  | .leaf v => match leafText v with | some t => utf8Enc t | none => []
+  | .leaf p v => match leafText F p v with | some t => utf8Enc t | none => []
   | .bytes cs => cs.flatMap id
 
 /-! ### `_header_to_bytes`: a DateTime header is an HTTP date (RFC 1123, always GMT) -/
@@ -224,22 +224,22 @@ def rfc1123 (u : DateTime) : Text :=
 def httpDate (x : DateTime) : Text := rfc1123 (toUtc x)
 
 /-- `_header_to_bytes(prot, val, cls)`: an HTTP date for a DateTime, else `prot.to_unicode` -/
-def hdrText : Leaf → Option Text
+def hdrText (F : Facts03) (p : PK) : Leaf → Option Text
   | .dt x => some (httpDate x)
-  | v => leafText v
+  | v => leafText F p v
 
 /-- `object_to_simple_dict(header_class, out_header, subinst_eater=_header_to_bytes)` for a header
     class of primitive members, then `_gen_http_headers` -/
-def hdrPairs (hdrFields : List Fld) (hdr : Node) : List (Text × Text) :=
+def hdrPairs (F : Facts03) (hdrFields : List Fld) (hdr : Node) : List (Text × Text) :=
   (encode ['.'] hdrFields hdr).flatMap (fun kv =>
     match kv.2 with
-    | .one v => (match hdrText v with | some t => [(kv.1, t)] | none => [])
-    | .many vs => vs.filterMap (fun v => (hdrText v).map (fun t => (kv.1, t)))
+    | .one p v => (match hdrText F p v with | some t => [(kv.1, t)] | none => [])
+    | .many p vs => vs.filterMap (fun v => (hdrText F p v).map (fun t => (kv.1, t)))
     | .empty => [])
 
 /-- status line is 200 OK; headers in the order they are sent -/
-def response (mime : Text) (hdrFields : List Fld) (hdr : Node) (ret : RetVal) : List (Text × Text) × List Nat :=
-  let body := retBody ret
-  (("Content-Type".toList, mime) :: (hdrPairs hdrFields hdr ++ [("Content-Length".toList, natText body.length)]), body)
+def response (F : Facts03) (mime : Text) (hdrFields : List Fld) (hdr : Node) (ret : RetVal) : List (Text × Text) × List Nat :=
+  let body := retBody F ret
+  (("Content-Type".toList, mime) :: (hdrPairs F hdrFields hdr ++ [("Content-Length".toList, natText body.length)]), body)
 
 end SpyneModel.Flat
